@@ -295,6 +295,12 @@ pub fn run(tier: Tier, cli: &str) {
                                 let cuts = [0usize, 1, 10, 60, 100, hdr.saturating_sub(1)];
                                 let mut olds: Vec<(String, Vec<u8>)> = cuts.iter().filter(|c| **c < hdr).map(|c| (format!("first {c} bytes of the right file"), full[..*c].to_vec())).collect();
                                 olds.push(("a complete file of another compilation".into(), b"// This file was generated by something else\npub struct Other;\n".to_vec()));
+                                // ... and one that is much longer than the new output
+                                let mut long = b"// This file was generated by something else\n".to_vec();
+                                for i in 0..(full.len() / 20 + 200) {
+                                    long.extend_from_slice(format!("pub struct Other{i};\n").as_bytes());
+                                }
+                                olds.push(("a longer complete file of another compilation".into(), long));
                                 for (what, old) in olds {
                                     std::fs::write(&dest, &old).unwrap();
                                     let o = Command::new(&exe).arg("c16gen").arg("file").arg(&gfile).arg(&dest).arg(p).args(&dargs).stdout(Stdio::null()).stderr(Stdio::null()).status().unwrap();
